@@ -198,7 +198,7 @@ func c10Profiles(tier Tier) []*explore.Profile {
 			return acts
 		},
 	}
-	return []*explore.Profile{t, shapes, other, highNonceProfile("high-nonce", tier, mk(), 2)}
+	return []*explore.Profile{t, shapes, other, wideTransfersProfile(tier, mk()), highNonceProfile("high-nonce", tier, mk(), 2)}
 }
 
 func init() { LedgerProfiles["C10"] = c10Profiles }
